@@ -55,7 +55,8 @@ Paths == << <<S>>, <<S, "a">>, <<S, "a", S, "b">>, <<S, "a", S, "c">>, <<S, "b">
             <<S, "a", "a", "a", "b">> >>      \* 11th: only for the inherited matcher deviation (NPaths = 11)
 \* queries: none; one whose text would change the match if it were part of the path (`/a?x/b` ends in /b);
 \* the empty query `/a?`
-Queries == << <<>>, <<QM, "x", S, "b">>, <<QM>> >>
+\* 4th: a return URL inside the query (`?u=x://h/a/b`): a parser that looks for `://` anywhere would route /a/b
+Queries == << <<>>, <<QM, "x", S, "b">>, <<QM>>, <<QM, "u", "=", "x", COLON, S, S, "h", S, "a", S, "b">> >>
 
 SeqsUpTo(X, n) == UNION {[1..k -> X] : k \in 0..n}
 Range(f) == {f[i] : i \in DOMAIN f}
